@@ -137,26 +137,52 @@ pub fn check_header(c: &HeaderCase, dir: &std::path::Path) -> Verdict {
         "cli-tsv" => ("tsv", "\t"),
         _ => ("spc", " "),
     };
+    // the header must name the columns whatever the input holds: one record, none at all (empty FASTA and
+    // empty FASTQ file), several records, and the same through stdin; every data row has as many values
+    let empty_fa = dir.join("none.fa");
+    let empty_fq = dir.join("none.fq");
+    let three = dir.join("three.fa");
+    std::fs::write(&empty_fa, b"").unwrap();
+    std::fs::write(&empty_fq, b"").unwrap();
+    std::fs::write(&three, b">a\nACGTACGTTGCAAGGCTTAACCGGTT\n>b\nNNNN\n>c\nTTGACCAGTAGGCTAGCTAGGATCGAACG\n").unwrap();
+    let inputs: [(&str, &std::path::Path, usize, bool); 5] = [("one record", &input, 1, false), ("no record (.fa)", &empty_fa, 0, false), ("no record (.fq)", &empty_fq, 0, false), ("three records", &three, 3, false), ("three records on stdin", &three, 3, true)];
     for counts in [false, true] {
-        let _ = std::fs::remove_file(&out);
-        let mut args = sv(&["comp", "oligo", "-i", &input.to_string_lossy(), "-o", &out.to_string_lossy(), "-k", &c.k.to_string(), "-p", preset, "-H", "-t", "2"]);
-        if counts {
-            args.push("-c".into());
-        }
-        let r = run_cli(&args, None, 60);
-        if !r.ok() {
-            v.fail("header-cli-run", format!("CLI failed: code {:?} stderr {}", r.code, r.stderr));
-            return v;
-        }
-        let data = std::fs::read(&out).unwrap_or_default();
-        let first = data.split(|&b| b == b'\n').next().unwrap_or(&[]);
-        let want = texts.join(delim);
-        if first != want.as_bytes() {
-            v.fail(
-                "header-cli",
-                format!("k={} preset={} counts={}: header line {:?} != expected {:?}", c.k, preset, counts, crate::util::trunc(&String::from_utf8_lossy(first), 200), crate::util::trunc(&want, 200)),
-            );
-            return v;
+        for (what, inp, nrec, stdin) in inputs.iter() {
+            let _ = std::fs::remove_file(&out);
+            let ip = inp.to_string_lossy().to_string();
+            let mut args = sv(&["comp", "oligo", "-i", if *stdin { "-" } else { &ip }, "-o", &out.to_string_lossy(), "-k", &c.k.to_string(), "-p", preset, "-H", "-t", "2"]);
+            if counts {
+                args.push("-c".into());
+            }
+            let data_in = std::fs::read(inp).unwrap();
+            let r = run_cli(&args, if *stdin { Some(&data_in[..]) } else { None }, 60);
+            if !r.ok() {
+                v.fail("header-cli-run", format!("CLI failed on {}: code {:?} stderr {}", what, r.code, r.stderr));
+                return v;
+            }
+            let data = std::fs::read(&out).unwrap_or_default();
+            let mut lines = data.split(|&b| b == b'\n');
+            let first = lines.next().unwrap_or(&[]);
+            let want = texts.join(delim);
+            if first != want.as_bytes() {
+                v.fail(
+                    "header-cli",
+                    format!("k={} preset={} counts={} input={}: header line {:?} != expected {:?}", c.k, preset, counts, what, crate::util::trunc(&String::from_utf8_lossy(first), 200), crate::util::trunc(&want, 200)),
+                );
+                return v;
+            }
+            let rows: Vec<&[u8]> = lines.filter(|l| !l.is_empty()).collect();
+            if rows.len() != *nrec {
+                v.fail("header-cli-rows", format!("k={} preset={} counts={} input={}: {} data rows after the header, {} records", c.k, preset, counts, what, rows.len(), nrec));
+                return v;
+            }
+            for (i, row) in rows.iter().enumerate() {
+                let cols = String::from_utf8_lossy(row).split(delim).count();
+                if cols != texts.len() {
+                    v.fail("header-cli-width", format!("k={} preset={} counts={} input={}: row {} has {} values, the header names {} columns", c.k, preset, counts, what, i, cols, texts.len()));
+                    return v;
+                }
+            }
         }
     }
     v
